@@ -519,6 +519,18 @@ fn seg(e: &Element, parent_split: bool, ordinal: usize) -> String {
     format!("{}#{}", n, ordinal)
 }
 
+/// multi-valued BSW parameters: several siblings of one kind with the same DEFINITION-REF. The library pairs them by
+/// position, so the k-th sibling with a DEFINITION-REF key is a different element from the first: key `name@defref~k`
+/// (k >= 1; the first keeps `name@defref`). Other keys are left alone (a repeated name stays a reported duplicate).
+fn multi_key(s: String, seen: &mut BTreeMap<String, usize>) -> String {
+    if !s.contains('@') || s.contains(':') && s.find(':') < s.find('@') {
+        return s;
+    }
+    let k = *seen.get(&s).unwrap_or(&0);
+    seen.insert(s.clone(), k + 1);
+    if k == 0 { s } else { format!("{}~{}", s, k) }
+}
+
 #[derive(Clone, Debug, PartialEq, Eq)]
 pub struct Entry {
     pub values: String,        // attributes (sorted), character data items, comment
@@ -548,12 +560,13 @@ fn canon_walk(e: &Element, path: &str, is_root: bool, fnames: &dyn Fn(&ArxmlFile
     let split = ty.splittable() != 0;
     let mut kid_keys = vec![];
     let mut counts: BTreeMap<String, usize> = BTreeMap::new();
+    let mut seen: BTreeMap<String, usize> = BTreeMap::new();
     let kids: Vec<Element> = e.sub_elements().collect();
     for k in &kids {
         let nm = k.element_name().to_str().to_string();
         let ord = *counts.get(&nm).unwrap_or(&0);
         counts.insert(nm, ord + 1);
-        let s = seg(k, split, ord);
+        let s = multi_key(seg(k, split, ord), &mut seen);
         let kp = format!("{}/{}", path, s);
         kid_keys.push(s);
         canon_walk(k, &kp, false, fnames, out);
@@ -618,8 +631,42 @@ fn observe_exec(ex: &Exec) -> Vec<String> {
     v
 }
 
+/// a shared parent with a multi-valued parameter (a `~k` child key whose base key is in both files) whose child key
+/// lists are not aligned (neither equal nor one a prefix of the other): the inputs of the known finding
+/// C09-multivalued-defref-misaligned. Computed from the files alone.
+fn multikey_misaligned(c: &Case) -> bool {
+    let alone: Vec<Canon> = c.files.iter().filter_map(|f| load_alone(f).ok().map(|m| canon_of(&m))).collect();
+    for i in 0..alone.len() {
+        for j in i + 1..alone.len() {
+            for (k, v) in &alone[i] {
+                let Some(w) = alone[j].get(k) else { continue };
+                let (l1, l2) = (&v[0].kid_order, &w[0].kid_order);
+                let multi = l1.iter().chain(l2.iter()).any(|s| match s.rsplit_once('~') {
+                    Some((base, _)) => l1.iter().any(|x| x == base) && l2.iter().any(|x| x == base),
+                    None => false,
+                });
+                let n = l1.len().min(l2.len());
+                if multi && l1[..n] != l2[..n] {
+                    return true;
+                }
+            }
+        }
+    }
+    false
+}
+
 /// the C09 oracle on one case; every load that returns Err is also checked for C11 (state before == state after)
 pub fn oracle_case(names: &Names, c: &Case, out: &mut OracleOut) {
+    let n0 = out.fails.len();
+    oracle_case_inner(names, c, out);
+    if out.fails.len() > n0 && multikey_misaligned(c) {
+        for f in out.fails[n0..].iter_mut() {
+            f.push_str(" tag=multikey-misaligned");
+        }
+    }
+}
+
+fn oracle_case_inner(names: &Names, c: &Case, out: &mut OracleOut) {
     // single-file loads
     let mut alone: Vec<Option<(Canon, String)>> = vec![];
     let mut alone_err: Vec<String> = vec![];
@@ -802,11 +849,12 @@ fn snap_of(m: &AutosarModel) -> Snap {
     fn keys(e: &Element, path: &str, out: &mut Vec<(Element, String)>) {
         let split = e.element_type().splittable() != 0;
         let mut counts: BTreeMap<String, usize> = BTreeMap::new();
+        let mut seen: BTreeMap<String, usize> = BTreeMap::new();
         for k in e.sub_elements() {
             let nm = k.element_name().to_str().to_string();
             let ord = *counts.get(&nm).unwrap_or(&0);
             counts.insert(nm, ord + 1);
-            let kp = format!("{}/{}", path, seg(&k, split, ord));
+            let kp = format!("{}/{}", path, multi_key(seg(&k, split, ord), &mut seen));
             keys(&k, &kp, out);
         }
         out.push((e.clone(), path.to_string()));
@@ -1137,6 +1185,141 @@ fn conflict_case(id: usize, rng: &mut SplitMix64, stats: &mut BTreeMap<String, u
     Case { id, kind: format!("conflict-{}", label), files, orders }
 }
 
+/// multi-valued BSW parameters: a shared ECUC container whose PARAMETER-VALUES / REFERENCE-VALUES hold two or more
+/// siblings with the same DEFINITION-REF in several files.
+///  - split-multi: the sibling lists are aligned (equal, or one a prefix of the other; the longer one may continue with
+///    further values of the same parameter and with other parameters): a valid split, the k-th value pairs with the k-th
+///  - split-multi-misaligned: the same values, but another parameter sits at a different place / only one file has a
+///    parameter before the group (a valid split of an unordered, splittable parent)
+///  - conflict-multi-swapped: the k-th values differ (the same two values in the other order): a value conflict, to be
+///    rejected in both load orders; conflict-multi-text: the plain value conflict of a single-valued parameter
+fn multi_case(id: usize, rng: &mut SplitMix64, stats: &mut BTreeMap<String, u64>) -> Case {
+    let refs = rng.below(3) == 0;
+    let nvals = 2 + rng.below(2) as usize;
+    let equal_values = rng.below(3) == 0;
+    let p = *rng.pick(&["/D/M/C/P", "/D/M/C/P1", "/D/M/C/Multi"]);
+    let mk = |dr: &str, v: &str| -> D {
+        if refs {
+            D::new("ECUC-REFERENCE-VALUE")
+                .kid(D::leaf("DEFINITION-REF", dr).attr("DEST", "ECUC-REFERENCE-DEF"))
+                .kid(D::leaf("VALUE-REF", &format!("/Pkg/target{}", v)).attr("DEST", "ECUC-CONTAINER-VALUE"))
+        } else {
+            D::new("ECUC-NUMERICAL-PARAM-VALUE")
+                .kid(D::leaf("DEFINITION-REF", dr).attr("DEST", "ECUC-INTEGER-PARAM-DEF"))
+                .kid(D::leaf("VALUE", v))
+        }
+    };
+    let vals: Vec<String> = (0..nvals + 1).map(|k| if equal_values { "7".to_string() } else { format!("{}", 10 + k) }).collect();
+    let group = |n: usize| -> Vec<D> { (0..n).map(|k| mk(p, &vals[k])).collect() };
+    let a = || mk("/D/M/C/A", "1");
+    let b = || mk("/D/M/C/B", "2");
+    let q = || mk("/D/M/C/Q", "3");
+    let variant = rng.below(10);
+    let nfiles = if variant < 6 && rng.below(3) == 0 { 3 } else { 2 };
+    // the lists of the files
+    let (label, kind, lists): (&str, &str, Vec<Vec<D>>) = match variant {
+        0 | 1 => {
+            // equal lists, optionally with the same other parameters around the group
+            let around = rng.below(2) == 0;
+            let l = || -> Vec<D> {
+                let mut v = vec![];
+                if around { v.push(a()); }
+                v.extend(group(nvals));
+                if around { v.push(q()); }
+                v
+            };
+            ("equal", "split-multi", (0..nfiles).map(|_| l()).collect())
+        }
+        2 | 3 => {
+            // one list is a prefix of the other: fewer values of the parameter
+            let mut ls: Vec<Vec<D>> = (0..nfiles).map(|f| group(if f == 0 { nvals - 1 } else if f == 1 { nvals } else { nvals + 1 })).collect();
+            if rng.below(2) == 0 { ls.swap(0, 1); }
+            ("prefix", "split-multi", ls)
+        }
+        4 | 5 => {
+            // the longer list continues with other parameters
+            let mut ls: Vec<Vec<D>> = (0..nfiles)
+                .map(|f| {
+                    let mut v = vec![a()];
+                    v.extend(group(nvals));
+                    if f >= 1 { v.push(b()); }
+                    if f >= 2 { v.push(q()); }
+                    v
+                })
+                .collect();
+            if rng.below(2) == 0 { ls.swap(0, 1); }
+            ("prefix-others", "split-multi", ls)
+        }
+        6 => {
+            // another parameter at a different place
+            let mut l0 = group(nvals);
+            l0.insert(1, q());
+            let mut l1 = vec![q()];
+            l1.extend(group(nvals));
+            ("moved", "split-multi-misaligned", vec![l0, l1])
+        }
+        7 => {
+            // a parameter before the group in one file only, one after the group in the other only
+            let mut l0 = vec![a()];
+            l0.extend(group(nvals));
+            let mut l1 = group(nvals);
+            l1.push(b());
+            ("exclusive-before", "split-multi-misaligned", vec![l0, l1])
+        }
+        8 => {
+            // a prefix, and the shorter list continues with its own parameter
+            let mut l0 = group(nvals - 1);
+            l0.push(b());
+            ("exclusive-after-prefix", "split-multi-misaligned", vec![l0, group(nvals)])
+        }
+        _ => {
+            if rng.below(2) == 0 {
+                let l0 = vec![mk(p, "10"), mk(p, "11")];
+                let l1 = vec![mk(p, "11"), mk(p, "10")];
+                ("swapped", "conflict-multi-swapped", vec![l0, l1])
+            } else {
+                // the plain value conflict: one (single-valued) parameter with two different values
+                ("text", "conflict-multi-text", vec![vec![a(), mk(p, "10")], vec![a(), mk(p, "99")]])
+            }
+        }
+    };
+    *stats.entry(format!("multi_{}", label)).or_insert(0) += 1;
+    *stats.entry(format!("multi_{}", if refs { "reference_values" } else { "parameter_values" })).or_insert(0) += 1;
+    if equal_values && variant < 9 {
+        *stats.entry("multi_cases_with_equal_values".into()).or_insert(0) += 1;
+    }
+    let nested = rng.below(3) == 0;
+    let nf = lists.len();
+    let mut files = vec![];
+    for (f, l) in lists.into_iter().enumerate() {
+        let mut vs = D::new(if refs { "REFERENCE-VALUES" } else { "PARAMETER-VALUES" });
+        vs.kids = l;
+        let mut c = D::named("ECUC-CONTAINER-VALUE", "c").kid(D::leaf("DEFINITION-REF", "/D/M/C").attr("DEST", "ECUC-PARAM-CONF-CONTAINER-DEF"));
+        if nested {
+            let inner = D::named("ECUC-CONTAINER-VALUE", "sub").kid(D::leaf("DEFINITION-REF", "/D/M/C/S").attr("DEST", "ECUC-PARAM-CONF-CONTAINER-DEF")).kid(vs);
+            c.kids.push(D::new("SUB-CONTAINERS").kid(inner));
+        } else {
+            c.kids.push(vs);
+        }
+        let mut cs = D::new("CONTAINERS").kid(c);
+        if f > 0 {
+            // every later file has a container of its own
+            cs.kids.push(D::named("ECUC-CONTAINER-VALUE", &format!("own{}", f)).kid(D::leaf("DEFINITION-REF", "/D/M/C").attr("DEST", "ECUC-PARAM-CONF-CONTAINER-DEF")));
+        }
+        let m = D::named("ECUC-MODULE-CONFIGURATION-VALUES", "m").kid(D::leaf("DEFINITION-REF", "/D/M").attr("DEST", "ECUC-MODULE-DEF")).kid(cs);
+        let mut els = D::new("ELEMENTS").kid(m);
+        if f == 0 {
+            els.kids.push(D::named("UNIT", "u0"));
+        }
+        let mut root = D::new("AUTOSAR").kid(D::new("AR-PACKAGES").kid(D::named("AR-PACKAGE", "Pkg").kid(els)));
+        let mut next = 0;
+        root.number(&mut next);
+        assign_all(&mut root, 1);
+        files.push(CaseFile { name: format!("f{}.arxml", f), strict: true, text: file_text(&root, 0x20000).into_bytes() });
+    }
+    Case { id, kind: kind.into(), files, orders: permutations(nf) }
+}
+
 fn assign_all(d: &mut D, mask: u32) {
     d.files = mask;
     for k in d.kids.iter_mut() {
@@ -1213,10 +1396,15 @@ fn gen_main(args: &[String]) {
         let id = cases.len();
         cases.push(conflict_case(id, &mut rng, &mut stats));
     }
+    // multi-valued parameters (appended: the cases above keep their ids and contents)
+    for _ in 0..if thorough { 200 } else { 60 } {
+        let id = cases.len();
+        cases.push(multi_case(id, &mut rng, &mut stats));
+    }
     std::fs::write(&args[2], write_cases(&cases)).unwrap();
     // scripts for the correspondence: a sample of the cases (every k-th), all their orders
     let step = if thorough { 3 } else { 4 };
-    let sample: Vec<Case> = cases.iter().filter(|c| c.id % step == 0 || c.kind.starts_with("conflict")).cloned().collect();
+    let sample: Vec<Case> = cases.iter().filter(|c| c.id % step == 0 || c.kind.starts_with("conflict") || c.kind.contains("multi")).cloned().collect();
     let (script, n) = cases_to_script(&sample, 0);
     std::fs::write(&args[3], script).unwrap();
     println!("STAT cases={} scripts={} orders={}", cases.len(), n, cases.iter().map(|c| c.orders.len()).sum::<usize>());
